@@ -99,6 +99,7 @@ fn main() {
     let mut run = Run::new(def.id, tier, seed);
     run.rule = def.rule.to_string();
     run.assumptions = def.assumptions.iter().map(|s| s.to_string()).collect();
+    run.assumptions.push("build profiles: all cases run in an optimised build WITH debug assertions and overflow checks; a quarter as many further cases (other seed) run in a second build without debug assertions and with wrapping arithmetic (coverage.wrap_profile reports whether that pass ran)".to_string());
 
     // permanent replay tier first
     let dir = format!("{}/regress/{}", rsv::runner::verif_dir(), def.id);
